@@ -22,6 +22,7 @@ EXPLANATION = (
     " (DISCHARGE) unify() only counts as enforcing fresh constraints when one of its nodes was created in the same function; (DEFER-RECORDED) an element-wise operator check that answers Ok for a still-unknown side records the constraint on both nodes; (RET-FOLD, RET-ORIGIN) the return-type half of every child's result reaches the parent's result on every success path and is never invented; (BINDER-TYPED) every variable the resolver introduces gets its type from the checker; (TYPE-NAME) the name of a declaration is not a value."
     ' (VISIT-ALL keyed copy) a loop that hands syntax nodes to a visiting function ranges over the list itself, not over a map or set collected from it in the same function (equal keys are merged).'
     " (ACCEPT tuple-length-guard) the tuple row of every operator checker is guarded by the lengths of its two operands; (FIELD-SETS) every row of sub_unify for two enums / blobs compares both sides' members; (VALUE-PATH, shared with C02) an if / case used as a value has a value in every branch; (DROPPED-ERROR adaptors) no Result<_, Vec<Error>> is turned into a plain value."
+    ' (SCOPE, shared with C09) scopes close where the source closes them.'
 )
 UNDECIDED = "that the list of mismatch kinds is complete; precision of inference (over-rejection)."
 
